@@ -1075,6 +1075,27 @@ type reqSpec struct {
 	extraField bool
 }
 
+// nearMissName: the same letters in another case, or padded with a blank
+func nearMissName(r *Rng, n string) string {
+	switch r.Intn(4) {
+	case 0:
+		return strings.ToUpper(n)
+	case 1:
+		return strings.ToLower(n)
+	case 2:
+		return " " + n
+	}
+	if n == "" {
+		return " "
+	}
+	// swap the case of the first letter
+	c := n[:1]
+	if strings.ToUpper(c) == c {
+		return strings.ToLower(c) + n[1:]
+	}
+	return strings.ToUpper(c) + n[1:]
+}
+
 func jnum(v float64) string { return strconv.FormatFloat(v, 'g', -1, 64) }
 
 func jstr(s string) string {
@@ -1321,8 +1342,20 @@ func genJSON(c *Ctx) {
 				s.params = append(s.params, reqParam{p.name, p.v + 1})
 				kind = "duplicate-names"
 			}
+			// NEAR-MISS names: a case variant or a blank-padded spelling of a catalogued name is NOT that name (the runner matches names
+			// exactly): the entry is ignored and the real parameter / input falls back to its default / zero, each reported
+			if r.Chance(0.15) && len(s.params) > 0 {
+				k := r.Intn(len(s.params))
+				s.params[k].name = nearMissName(r, s.params[k].name)
+				kind = "near-miss-names"
+			}
 			if r.Chance(0.5) {
 				shuffle(r, s.params)
+			}
+			if r.Chance(0.1) && len(s.inputs) > 0 {
+				k := r.Intn(len(s.inputs))
+				s.inputs[k].name = nearMissName(r, s.inputs[k].name)
+				kind = "near-miss-names"
 			}
 			// inputs
 			switch r.Intn(10) {
